@@ -1686,7 +1686,7 @@ def _gen_function(kv, sections, repo, res: UnitResult, variant) -> list:
         done = False
         for cl in contract_lines:
             code = cl.text.split("//")[0]
-            mm_ = re.search(r"\bensures\b", code)
+            mm_ = re.search(r"^\s*ensures\b", code)
             if mm_:
                 cl.text = cl.text[:mm_.end()] + " false, /*CANARY*/" + cl.text[mm_.end():]
                 done = True
